@@ -67,7 +67,7 @@ func (b *backend) create(ctx context.Context, key []byte, value []byte) (revisio
 		return 0, err
 	}
 
-	if bytes.Contains(key, events) {
+	if bytes.HasPrefix(key, getEventsPrefix(b.config.Prefix)) {
 		err = b.creator.CreateWithTTL(ctx, key, value, revision, eventsTTL)
 	} else {
 		err = b.creator.Create(ctx, key, value, revision)
